@@ -20,7 +20,7 @@ import (
 
 var (
 	c05Hosts    = []string{"a.com", "*.a.com", "b.com", ""}
-	c05Prefixes = []string{"/", "/api", "/api/v1"}
+	c05Prefixes = []string{"/", "/api", "/api/v1", "/a", "/a/b", "/docs", "/docs/v2"}
 	c05Names    = []string{"s0", "s1", "s2", "s3"}
 )
 
@@ -54,14 +54,18 @@ func c05GenOp(rng *rand.Rand, lookups bool) c05Op {
 				op.Hosts = append(op.Hosts, c05Hosts[i])
 			}
 		}
-		for _, i := range rng.Perm(len(c05Prefixes))[:1+rng.IntN(2)] {
+		np := 1 + rng.IntN(2)
+		if rng.IntN(4) == 0 {
+			np = pick(rng, []int{3, 5, 6, 7}) // lists of these lengths leave spare capacity in a slice grown by append
+		}
+		for _, i := range rng.Perm(len(c05Prefixes))[:np] {
 			op.Prefixes = append(op.Prefixes, c05Prefixes[i])
 		}
 		return op
 	case k < 8 || !lookups:
 		return c05Op{Kind: "remove", Name: pick(rng, c05Names)}
 	}
-	return c05Op{Kind: "lookup", Host: pick(rng, []string{"a.com", "x.a.com", "b.com", "c.com"}), Path: pick(rng, []string{"/", "/api", "/api/v1/x", "/other"})}
+	return c05Op{Kind: "lookup", Host: pick(rng, []string{"a.com", "x.a.com", "b.com", "c.com"}), Path: pick(rng, []string{"/", "/api", "/api/v1/x", "/other", "/a/b/c", "/docs", "/docs/v2/x", "/a"})}
 }
 
 func c05Gen(rng *rand.Rand, idx int) c05Scenario {
@@ -435,7 +439,7 @@ func c05Run(t *testing.T, run *Run, sc c05Scenario, rng *rand.Rand) {
 				}
 			}
 			for _, h := range []string{"a.com", "x.a.com", "b.com", "c.com"} {
-				for _, p := range []string{"/", "/api", "/api/v1/x"} {
+				for _, p := range []string{"/", "/api", "/api/v1/x", "/a/b/c", "/docs/v2/x", "/a"} {
 					o := c05Exec(w, c05Op{Kind: "lookup", Host: h, Path: p}, fmt.Sprintf("m%d", i))
 					if want := refRoute(st.services(), h, p); o.Name != want {
 						fail("routing-disagrees-with-ownership", "after step %d %+v: Host %s path %s answered by %q, owner is %q (%s)", i, op, h, p, o.Name, want, st.key())
